@@ -180,7 +180,12 @@ func VerifC11_type2_fixed_blind() {
 	nonce := vBytes("nonce", 32, 32)
 	keyID := issuer.TokenKeyID()
 	blindA, blindB := vBytes("blindA", 256, 256), vBytes("blindB", 256, 256)
+	// the PSS salt of the token type (48 bytes), or none at all: a supplied blind is used either way
+	emptySalt := vBool("empty_salt")
 	salt := vBytes("salt", 48, 48)
+	if emptySalt {
+		salt = []byte{}
+	}
 	a1, err := NewBasicPublicClient().CreateTokenRequestWithBlind(challenge, nonce, keyID, issuer.TokenKey(), blindA, salt)
 	if err != nil {
 		vReach("blind-refused")
@@ -192,6 +197,11 @@ func VerifC11_type2_fixed_blind() {
 		return
 	}
 	vAssert(vBytesEq(a1.Request().Marshal(), a2.Request().Marshal()), "request-is-a-function-of-the-arguments")
+	if emptySalt {
+		// (a token made with a salt of the wrong length does not verify: nothing more to compare)
+		vReach("empty-salt-reproducible")
+		return
+	}
 	b1, err := NewBasicPublicClient().CreateTokenRequestWithBlind(challenge, nonce, keyID, issuer.TokenKey(), blindB, salt)
 	if err != nil {
 		vReach("second-blind-refused")
